@@ -30,7 +30,7 @@ func (f *fakeLimiter1) Capacity() uint32 {
 	f.log.Logf("L", "capread %d", v)
 	return v
 }
-func (f *fakeLimiter1) GiveMe(v uint32)                 { f.log.Logf("L", "giveme %d", v) }
+func (f *fakeLimiter1) GiveMe(v uint32)                     { f.log.Logf("L", "giveme %d", v) }
 func (f *fakeLimiter1) Start(ctx context.Context) error     { return nil }
 func (f *fakeLimiter1) Provision(ctx context.Context) error { return nil }
 func (f *fakeLimiter1) Stop()                               {}
@@ -55,8 +55,8 @@ func (o *shiftyOp1) Cost() uint32 {
 	return o.cost
 }
 func (o *shiftyOp1) Watcher() b1.IWatcher { return o.w }
-func (o *shiftyOp1) IsBatchable() bool   { return o.batchable }
-func (o *shiftyOp1) MakeAttempt()        { o.attempt.Add(1) }
+func (o *shiftyOp1) IsBatchable() bool    { return o.batchable }
+func (o *shiftyOp1) MakeAttempt()         { o.attempt.Add(1) }
 
 func classify1(err error) int {
 	switch err.(type) {
